@@ -176,6 +176,7 @@ class Runner:
         self.obs: list[list[str]] = []
         self.err = None
         self.det = None
+        self.tape_ok = True
         # value TYPE: most runs feed Python numbers, a deterministic 1 in 3 feeds the NumPy scalars detectors see in practice
         # (elements of `(y_pred != y_true).astype(int)` or of a float64 array); the model line is the same number either way
         h = zlib.crc32(repr((cls, sorted((k, repr(v)) for k, v in params.items()))).encode()) % 12
@@ -214,6 +215,10 @@ class Runner:
             np.random.set_state(st)
             n_old = len(d.window) - d.config.num_test_instances
             tape = np.random.choice(n_old, d.config.num_test_instances, replace=False)
+            replayed = np.random.get_state()
+            # does the code draw exactly this from NumPy's GLOBAL generator (as the unchanged tree does)?  If the global state did not advance the way this replay
+            # advances it, the tape is not what the detector used: expectations built on it are then a broken correspondence, not a verdict on the detector
+            self.tape_ok = self.tape_ok and replayed[0] == after[0] and replayed[2:] == after[2:] and bool(np.array_equal(replayed[1], after[1]))
             np.random.set_state(after)
         line = f"{'u' if observe else 'uq'} {self.inst} {f2h(value)}"
         if tape is not None:
